@@ -34,6 +34,8 @@ CONSTANTS Ded, Blk, Str,          \* process ids of dedicated sessions, blocking
           BugDoubleStore,         \* WriteTo stores the wire twice
           BugNoCloseUnclean,      \* WriteTo does not close a wire whose reply was not consumed completely
           FixStreamCtxStore,      \* DoStream/DoMultiStream store the wire when ctx.Err() != nil (the repair)
+          BugKeepAbandoned,       \* mux.blocking closes the wire only when the wire itself is broken (isBroken), not when the
+                                  \* caller merely gave up: a healthy wire goes back with the abandoned command in flight
           Emit,                   \* print the stream history of finished behaviours as CASE records
           WarmChoices             \* {FALSE}: pools start empty; {FALSE, TRUE}: also start with one idle wire in the stream pool
 
@@ -60,7 +62,8 @@ vars == <<wires, nextW, idle, size, holder, pc, pw, mark, hasInv, ops, sctx, sn,
 Procs == Ded \cup Blk \cup Str
 W == 1..MaxWires
 Fresh(pl) == [pool |-> pl, open |-> TRUE, bg |-> FALSE, subs |-> FALSE, hooks |-> "none", track |-> FALSE,
-              multi |-> FALSE, blck |-> FALSE, dirty |-> FALSE]
+              multi |-> FALSE, blck |-> FALSE, dirty |-> FALSE,
+              infl |-> 0]      \* process whose command is still unanswered on the wire although its call returned (0: none)
 Cap(pl) == IF pl = "d" THEN CapD ELSE CapS
 
 Init == /\ warm \in WarmChoices /\ crashed = FALSE
@@ -118,7 +121,7 @@ DOp(d) ==
                        [] k = "sub" -> [@ EXCEPT !.subs = TRUE, !.bg = TRUE]             \* Receive(SUBSCRIBE)
                        [] k = "hooks" -> [@ EXCEPT !.hooks = IF @ = "none" THEN "ps" ELSE @, !.bg = TRUE]  \* SetPubSubHooks
                        [] k = "inval" -> [@ EXCEPT !.hooks = "inv", !.track = TRUE, !.bg = TRUE]  \* SetOnInvalidations + CLIENT TRACKING ON
-                       [] OTHER -> [@ EXCEPT !.blck = TRUE, !.bg = TRUE]]                \* a blocking call ended by its context
+                       [] OTHER -> [@ EXCEPT !.blck = TRUE, !.bg = TRUE, !.infl = d]]    \* a blocking call ended by its context
   /\ Sent(d, pw[d]) /\ ops' = [ops EXCEPT ![d] = @ + 1]
   /\ UNCHANGED <<nextW, idle, size, holder, pc, pw, mark, hasInv, sctx, sn, se, stores, lateUse, shist>>
 
@@ -168,10 +171,28 @@ DRelease2(d) == /\ pc[d] = "released" /\ ops[d] < MaxOps + 2 /\ ops' = [ops EXCE
 BAcq(b) == /\ pc[b] = "start" /\ ops[b] < MaxRounds /\ CanAcquire("d")
            /\ Acquire(b, "d") /\ pc' = [pc EXCEPT ![b] = "held"]
            /\ UNCHANGED <<mark, hasInv, ops, sctx, sn, se, stores, foreign, lateUse, shist>>
-\* wire.Do; a non-Redis error (deadline, broken connection) makes mux.blocking close the wire
+\* wire.Do / wire.DoMulti of mux.blocking / blockingMulti.  Outcomes:
+\*   ok         the reply arrived
+\*   broken     the connection failed (also: the deadline of the context hit a wire in synchronous mode, which sets the
+\*              deadline on the socket): the wire reports the error itself
+\*   abandoned  the caller's context ended while the command was queued on a pipelining wire (cancel-only context, or a
+\*              deadline on a wire whose background loop runs): the call returns ctx.Err(), the wire is healthy and the
+\*              command is still in flight on it.  mux.blocking closes the wire on ANY non-Redis error
 BDo(b) == /\ pc[b] = "held" /\ pc' = [pc EXCEPT ![b] = "store"] /\ Sent(b, pw[b])
-          /\ \E ok \in BOOLEAN : wires' = [wires EXCEPT ![pw[b]].open = @ /\ ok]
+          /\ \E c \in {"ok", "broken", "abandoned"} :
+               wires' = [wires EXCEPT ![pw[b]] =
+                          CASE c = "ok" -> @
+                            [] c = "broken" -> [@ EXCEPT !.open = FALSE]
+                            [] OTHER -> [@ EXCEPT !.blck = TRUE, !.bg = TRUE, !.infl = b, !.open = @ /\ BugKeepAbandoned]]
           /\ UNCHANGED <<nextW, idle, size, holder, pw, mark, hasInv, ops, sctx, sn, se, stores, lateUse, shist>>
+\* the same outcome as a step of its own (trace validation: the command was received, then the caller gives up)
+BAbandon(b) == /\ pc[b] = "store" /\ wires[pw[b]].infl = 0
+               /\ wires' = [wires EXCEPT ![pw[b]] = [@ EXCEPT !.blck = TRUE, !.bg = TRUE, !.infl = b, !.open = @ /\ BugKeepAbandoned]]
+               /\ UNCHANGED <<nextW, idle, size, holder, pc, pw, mark, hasInv, ops, sctx, sn, se, stores, foreign, lateUse, shist>>
+\* the context ended before anything was written (pipe.Do returns ctx.Err() at once): also a non-Redis error
+BGiveUp(b) == /\ pc[b] = "held" /\ pc' = [pc EXCEPT ![b] = "store"]
+              /\ wires' = [wires EXCEPT ![pw[b]].open = @ /\ BugKeepAbandoned]
+              /\ UNCHANGED <<nextW, idle, size, holder, pw, mark, hasInv, ops, sctx, sn, se, stores, foreign, lateUse, shist>>
 BStore(b) == /\ pc[b] = "store" /\ Store(b, pw[b]) /\ pc' = [pc EXCEPT ![b] = "start"] /\ ops' = [ops EXCEPT ![b] = @ + 1]
              /\ UNCHANGED <<nextW, pw, mark, hasInv, sctx, sn, se, stores, foreign, lateUse, shist>>
 
@@ -252,7 +273,7 @@ SAgain(s) == /\ pc[s] = "fin" /\ pc' = [pc EXCEPT ![s] = "start"] /\ ops' = [ops
 
 Step == \/ \E d \in Ded : DAcq(d) \/ DOp(d) \/ DClose(d) \/ DRelease(d) \/ DSt1(d) \/ DSt2(d) \/ DSt3(d) \/ DSt4(d)
                           \/ DLate(d) \/ DRelease2(d)
-        \/ \E b \in Blk : BAcq(b) \/ BDo(b) \/ BStore(b)
+        \/ \E b \in Blk : BAcq(b) \/ BDo(b) \/ BGiveUp(b) \/ BStore(b)
         \/ \E s \in Str : SCtxEnd(s) \/ SAcq(s) \/ SAcqDead(s) \/ SDo(s) \/ SWrite(s) \/ SAgain(s)
 \* pipe.go _backgroundRead panics ("SUBSCRIBE/UNSUBSCRIBE are not allowed in MULTI/EXEC block") when the UNSUBSCRIBE of
 \* CleanSubscriptions is answered QUEUED, i.e. when the session left a MULTI open on a wire whose background loop runs
@@ -281,6 +302,9 @@ MarkedWhenReleased == \A d \in Ded : pc[d] \in {"st1", "st2", "st3", "st4", "rel
 \* C25: an idle connection of the dedicated pool has no subscriptions, no hooks, no tracking
 CleanOnReturn == \A k \in 1..Len(idle["d"]) : LET x == wires[idle["d"][k]]
                                                IN ~x.subs /\ x.hooks = "none" /\ ~x.track /\ x.open /\ ~x.blck
+\* C25: nobody else's command is in flight on a connection that is idle or held: what a holder finds on its wire is its own
+NoForeignInFlight == /\ \A k \in 1..Len(idle["d"]) : wires[idle["d"][k]].infl = 0
+                     /\ \A w \in W : (holder[w] # 0 /\ wires[w].open) => wires[w].infl \in {0, holder[w]}
 \* (not part of C25's statement) an idle connection is not inside MULTI
 NoOpenTxOnReturn == \A k \in 1..Len(idle["d"]) : ~wires[idle["d"][k]].multi
 \* (known finding, not part of the positive configs) releasing a session never takes the process down
